@@ -115,12 +115,12 @@ def last_value(ref, letter_code):
     return val
 
 
-def concrete_letter(w, l):
+def concrete_letter(w, l, cands="XYZEF"):
     """Turn a (possibly symbolic) upper-case letter into a concrete one by forking over the letters that matter."""
     if isinstance(l, str):
         return l
     from symx.strings import char_test
-    for cand in "XYZEF":
+    for cand in cands:
         if char_test(l, [(ord(cand), ord(cand))]):
             return cand
     return "?"
@@ -155,6 +155,7 @@ def scen(w, N=4, mode="pairs"):
         return
     # ---- handlers act on the last value given for each letter
     cref = [(concrete_letter(w, l), v) for l, v in ref]
+    cref0 = cref if mode != "arc" else [(concrete_letter(w, l, "XYIJR"), v) for l, v in ref]
     state = w.env.ExcludeRegionState(NullLogger())
     h = w.env.GcodeHandlers(state, NullLogger())
     h.handleGcode("G28", "G28", None)
@@ -175,6 +176,50 @@ def scen(w, N=4, mode="pairs"):
             conds.append(alg.eq(cur[ax], before[ax] if lv is None else lv))
         w.check(alg.and_(*conds), "move-handler-acts-on-last-value-per-letter", desc + " ; words %r" % (
             [l for l, _ in cref],))
+    elif mode == "arc":
+        if any(l == "R" and v is not None for l, v in cref0):
+            pl.skip(w, "radius form (C16's subject)")
+        h.handleGcode("G1 X1 Y2 Z3 E4", "G1", None)
+        seen = {}
+
+        def planArc(endX, endY, i, j, clockwise):
+            seen["args"] = (endX, endY, i, j)
+            return [endX, endY]
+        h.planArc = planArc
+        cmd = w.text(["G3 ", s]) if w.symbolic else "G3 " + s
+        try:
+            h.handleGcode(cmd, "G3", None)
+        except Exception as ex:
+            w.fail("handler-raises", "%r" % (ex,))
+            return
+        exp = {"X": 1, "Y": 2, "I": 0, "J": 0}
+        for l, v in cref0:
+            if v is not None and l in exp:
+                exp[l] = v
+        if "args" in seen:
+            ex_, ey_, i_, j_ = seen["args"]
+            ok = alg.and_(alg.eq(ex_, exp["X"]), alg.eq(ey_, exp["Y"]), alg.eq(i_, exp["I"]), alg.eq(j_, exp["J"]))
+            w.cover("arc-planned")
+        else:
+            # no arc planned: only legitimate when both centre offsets are zero (and no R word)
+            hasr = any(l == "R" and v is not None for l, v in cref0)
+            ok = True if hasr else alg.and_(alg.eq(exp["I"], 0), alg.eq(exp["J"], 0))
+        w.check(ok, "arc-handler-acts-on-last-value-per-letter", desc + " ; words %r" % ([l for l, _ in cref0],))
+    elif mode == "g1rel":
+        # the SAME command text twice in relative mode: each occurrence must be applied
+        h.handleGcode("G1 X1 Y2 Z3 E4", "G1", None)
+        h.handleGcode("G91", "G91", None)
+        cmd = w.text(["G1 ", s]) if w.symbolic else "G1 " + s
+        h.handleGcode(cmd, "G1", None)
+        h.handleGcode(cmd, "G1", None)
+        pos = state.position
+        cur = {"X": pos.X_AXIS.current, "Y": pos.Y_AXIS.current, "Z": pos.Z_AXIS.current}
+        before = {"X": 1, "Y": 2, "Z": 3}
+        conds = []
+        for ax in "XYZ":
+            lv = last_value(cref, ord(ax))
+            conds.append(alg.eq(cur[ax], before[ax] if lv is None else before[ax] + 2 * lv))
+        w.check(alg.and_(*conds), "repeated-identical-command-applied-each-time", desc)
     else:
         h.handleGcode("G1 X1 Y2 Z3", "G1", None)
         cmd = w.text(["G28 ", s]) if w.symbolic else "G28 " + s
@@ -195,7 +240,7 @@ def validate():
     return c18.validate()
 
 
-SCENARIOS = {"pairs": scen, "g1": scen, "g28": scen}
+SCENARIOS = {"pairs": scen, "g1": scen, "g28": scen, "arc": scen, "g1rel": scen}
 
 META = {
     "assumptions": [
@@ -215,4 +260,8 @@ def plan(tier):
         Scenario("g1", scen, params={"N": n2, "mode": "g1"}, cover=["legal-text", "valued-word"],
                  bounds={"free characters": n2}),
         Scenario("g28", scen, params={"N": 3, "mode": "g28"}, cover=["legal-text"], bounds={"free characters": 3}),
+        Scenario("arc", scen, params={"N": 3, "mode": "arc"}, cover=["legal-text", "arc-planned"],
+                 bounds={"free characters": 3}),
+        Scenario("g1rel", scen, params={"N": 3, "mode": "g1rel"}, cover=["legal-text", "valued-word"],
+                 bounds={"free characters": 3}),
     ]
